@@ -205,8 +205,102 @@ def run(ctx):
     if set(opt_calls) != {"is_optional_start", "is_optional_end"}:
         raise AnalysisError("Filter.__iter__ no longer consults both omission predicates: %s" % sorted(opt_calls))
 
+    position_rules(ctx)
     from . import c13_parser
     c13_parser.run(ctx)
+
+
+# The positions in which HTML allows each tag to be omitted ("Optional tags" in the HTML syntax section), as a function of
+# the next token.  next kinds: "element:<name>" (StartTag or EmptyTag), "end" (an end tag: no more content in the parent),
+# "eof", "space", "comment", "text", "other".  The filter may omit *less* than this, never more.
+def _end_allowed(tag, kind, name):
+    nomore = kind in ("end", "eof")
+    el = name if kind == "element" else None
+    if tag in ("html", "body"):
+        return kind != "comment"                      # not immediately followed by a comment
+    if tag == "head":
+        return kind not in ("comment", "space")
+    if tag == "li":
+        return el == "li" or nomore
+    if tag == "dt":
+        return el in ("dt", "dd")
+    if tag == "dd":
+        return el in ("dd", "dt") or nomore
+    if tag == "p":
+        return el in ("address", "article", "aside", "blockquote", "details", "dialog", "div", "dl", "fieldset", "figcaption",
+                      "figure", "footer", "form", "h1", "h2", "h3", "h4", "h5", "h6", "header", "hgroup", "hr", "main", "menu",
+                      "nav", "ol", "p", "pre", "section", "table", "ul", "dir", "datagrid", "center") or nomore
+    if tag in ("rt", "rp"):
+        return el in ("rt", "rp") or nomore
+    if tag == "optgroup":
+        return el == "optgroup" or nomore
+    if tag == "option":
+        return el in ("option", "optgroup") or nomore
+    if tag == "colgroup":
+        return kind not in ("comment", "space")
+    if tag == "thead":
+        return el in ("tbody", "tfoot")
+    if tag == "tbody":
+        return el in ("tbody", "tfoot") or nomore
+    if tag == "tfoot":
+        return nomore or el == "tbody"               # html5lib's historical rule (tfoot before tbody) is tolerated
+    if tag == "tr":
+        return el == "tr" or nomore
+    if tag in ("td", "th"):
+        return el in ("td", "th") or nomore
+    return False
+
+
+def _start_allowed(tag, kind, name):
+    el = name if kind == "element" else None
+    if tag == "html":
+        return kind != "comment"
+    if tag == "head":
+        return kind == "element" or (kind == "end" and name == "head")   # empty head
+    if tag == "body":
+        # meta / link are judged by R13.4c against the parser's own after-head table (known findings there)
+        return kind not in ("comment", "space") and el not in ("script", "style", "template")
+    if tag == "colgroup":
+        return el == "col"
+    if tag == "tbody":
+        return el == "tr"
+    return False
+
+
+def position_rules(ctx):
+    """R13.5: every cell of the decision tables in which the filter omits a tag is a position in which HTML allows the
+    omission (as a function of the next token; the filter may be stricter)."""
+    r = ctx.r
+    r.rule("R13.5", "each (tag, next token) cell in which the filter omits the tag is a position where HTML allows the omission", floor=300)
+    fs, fe, names_s, tab_s, names_e, tab_e = tables(ctx)
+    void = set(ctx.ce.const("constants.py", "voidElements"))
+
+    def kind_of(nty, nname):
+        if nty is None:
+            return "eof"
+        if nty in ("StartTag", "EmptyTag"):
+            return "element"
+        if nty == "EndTag":
+            return "end"
+        return {"SpaceCharacters": "space", "Comment": "comment", "Characters": "text"}.get(nty, "other")
+    for label, func, tab, allowed in (("end", fe, tab_e, _end_allowed), ("start", fs, tab_s, _start_allowed)):
+        seen = set()
+        for (tag, nty, nname, pv), v in tab.items():
+            if not v:
+                continue
+            kind = kind_of(nty, nname)
+            if nty == "EmptyTag" and nname not in void:
+                continue        # tree walkers emit EmptyTag exactly for void elements (C10); other cells are unreachable
+            nm = nname if nname != FRESH else "<other>"
+            key = "%s:%s before %s%s" % (label, tag if tag != FRESH else "<other>", kind, (":" + nm) if kind in ("element",) or (kind == "end" and label == "start") else "")
+            if key in seen:
+                continue
+            seen.add(key)
+            ok = allowed(tag, kind, nname if nname != FRESH else None)
+            r.check("R13.5", ok, key, func.where,
+                    "the filter omits the %s tag of <%s> when the next token is %s%s; HTML does not allow the omission there"
+                    % (label, tag, nty, (" " + nm) if nname else ""), {"tag": tag, "next": [nty, nm]},
+                    detail={"tag": tag, "next": kind})
 
 
 def check_slider(ctx, tok_name):
@@ -274,6 +368,13 @@ def mutants():
           "            previous1 = token\n            previous2 = previous1\n", "R13.2"),
         T("yield-next", "filters/optionaltags.py", "            else:\n                yield token", "            else:\n                yield next", "R13.2"),
         T("p-before-span", "filters/optionaltags.py", "'p', 'pre', 'section', 'table', 'ul')", "'p', 'pre', 'section', 'span', 'table', 'ul')", "R13.4a"),
+        T("rt-before-anything", "filters/optionaltags.py",
+          "                return next[\"name\"] in ('rt', 'rp')\n            else:\n                return type == \"EndTag\" or type is None",
+          "                return next[\"name\"] in ('rt', 'rp')\n            else:\n                return True", "R13.5"),
+        T("thead-at-end", "filters/optionaltags.py", "            elif tagname == 'tbody':\n                return type == \"EndTag\" or type is None",
+          "            else:\n                return type == \"EndTag\" or type is None", "R13.5"),
+        T("head-end-before-space", "filters/optionaltags.py", "if tagname in ('html', 'head', 'body'):\n            # An html element's end tag may be omitted if the html element\n            # is not immediately followed by a space character or a comment.\n            return type not in (\"Comment\", \"SpaceCharacters\")",
+          "if tagname in ('html', 'head', 'body'):\n            return type != \"Comment\"", "R13.5"),
         T("li-before-any-start", "filters/optionaltags.py",
           "            if type == \"StartTag\":\n                return next[\"name\"] == tagname\n",
           "            if type == \"StartTag\":\n                return next[\"name\"] in (tagname, 'div')\n", "R13.4a"),
